@@ -35,6 +35,11 @@ def check(run):
     for dev, depth in (('Q2', 4), ('Q3', 4 if thorough else 3)):
         st = run.explore(f'{dev}: sequences of 1..{depth} operations, all messages in one buffer', SPEC + ({'device': dev, 'depth': depth, 'one_buffer': True},), 900)
         records.extend(st['records'])
+    # long histories with few kinds of operation: what happens after an overflow has been partly read out (2N+3 operations and more)
+    for dev, depth, kinds in (('Q2', 8, ['undefined', 'next', 'count']), ('Q3', 9 if thorough else 8, ['undefined', 'next', 'count']), ('Q2', 7, ['undefined', 'custom', 'next', 'next+count']),
+                              ('Q4', 11 if thorough else 9, ['undefined', 'next'])):
+        st = run.explore(f'{dev}: every sequence of exactly {depth} operations from {kinds}', SPEC + ({'device': dev, 'depth': depth, 'kinds': kinds, 'exact_depth': True},), 1500)
+        records.extend(st['records'])
     for pn, chunk, depth in ((64, 64, 3), (32, 32, 4), (32, 1, 3)):
         st = run.explore(f'Q2: sequences of 1..{depth} operations streamed through process::<{pn}>, {chunk} bytes per read (the responses of several messages per read exceed the buffer unless each is sent at once)',
                          SPEC + ({'device': 'Q2', 'depth': depth, 'process': chunk, 'pn': pn},), 900)
@@ -77,7 +82,7 @@ def confirm(run, v):
         elif op == 'valid':
             calls += 1
     detail = {}
-    ok_all = True
+    ok_all = False      # reproduced in the dev or the release profile (both recorded)
     for rel in (False, True):
         if v.get('process'):
             o = run.native([{'entry': 'process', 'device': v['device'], 'input': v['input'], 'n': v.get('pn', 64), 'chunks': [], 'tail': v['process'], 'script': script}], release=rel)[0]
@@ -86,7 +91,7 @@ def confirm(run, v):
         exp = reference_output(v['ops'], v['custom_numbers'], {'Q1': 1, 'Q2': 2, 'Q3': 3, 'Q4': 4, 'T3': 10}[v['device']])
         ok = o.get('panic') is not None or bytes.fromhex(o.get('out', '')) != exp[0] or len(o.get('queue') or []) != exp[1]
         detail['release' if rel else 'dev'] = {'observation': o, 'reference_output': exp[0].decode('latin1'), 'reproduced': ok}
-        ok_all = ok_all and ok
+        ok_all = ok_all or ok
     return ok_all, detail
 
 
